@@ -273,14 +273,22 @@ prop("C03", harness="h_sched",
                   "real-libtbb executions of the same entry points with generated worker limits are part of C07 and C08"])
 MPIRUN = ["mpiexec", "--allow-run-as-root", "--host", "localhost:64", "-n"]
 prop("C04", harness="h_mpi",
-     quick=dict(shards=4, cases=8000, parallel=2, timeout=900, env={"VERIF_MAXN": "12"}, launcher=MPIRUN + ["8"],
-                extra_phases=[dict(shards=2, cases=6000, launcher=MPIRUN + ["3"], seed_offset=100, replay_with=False),
-                              dict(shards=1, cases=1500, launcher=MPIRUN + ["1"], seed_offset=200, replay_with=False)]),
-     thorough=dict(shards=8, cases=12000, parallel=2, timeout=6000, env={"VERIF_MAXN": "16"}, launcher=MPIRUN + ["8"],
+     quick=dict(shards=4, cases=4000, parallel=1, timeout=900, env={"VERIF_MAXN": "12"}, launcher=MPIRUN + ["8"],
+                extra_phases=[dict(shards=2, cases=3000, launcher=MPIRUN + ["3"], seed_offset=100, replay_with=False),
+                              dict(shards=1, cases=1500, launcher=MPIRUN + ["1"], seed_offset=200, replay_with=False),
+                              dict(shards=2, cases=3000, launcher=MPIRUN + ["7"], seed_offset=250, replay_with=False),
+                              dict(shards=2, cases=5000, launcher=MPIRUN + ["13"], seed_offset=300, replay_with=False),
+                              dict(shards=2, cases=4000, launcher=MPIRUN + ["11"], seed_offset=330, replay_with=False),
+                              dict(shards=2, cases=2000, env={"VERIF_PROFILE": "dense", "VERIF_MAXN": "12"}, launcher=MPIRUN + ["8"], seed_offset=350, replay_with=False)]),
+     thorough=dict(shards=8, cases=12000, parallel=1, timeout=6000, env={"VERIF_MAXN": "16"}, launcher=MPIRUN + ["8"],
                    extra_phases=[dict(shards=4, cases=8000, launcher=MPIRUN + ["3"], seed_offset=100, replay_with=False),
                                  dict(shards=4, cases=8000, launcher=MPIRUN + ["5"], seed_offset=150, replay_with=False),
-                                 dict(shards=2, cases=4000, launcher=MPIRUN + ["1"], seed_offset=200, replay_with=False)]),
-     rule="mpiexec jobs of 8, 3 (5 in thorough) and 1 processes. Rank 0 drives rapidcheck; every evaluation is broadcast as case text and executed "
+                                 dict(shards=2, cases=4000, launcher=MPIRUN + ["1"], seed_offset=200, replay_with=False),
+                                 dict(shards=4, cases=10000, launcher=MPIRUN + ["7"], seed_offset=250, replay_with=False),
+                                 dict(shards=4, cases=10000, launcher=MPIRUN + ["11"], seed_offset=280, replay_with=False),
+                                 dict(shards=4, cases=10000, launcher=MPIRUN + ["13"], seed_offset=300, replay_with=False),
+                                 dict(shards=4, cases=8000, env={"VERIF_PROFILE": "dense", "VERIF_MAXN": "14"}, launcher=MPIRUN + ["8"], seed_offset=350, replay_with=False)]),
+     rule="mpiexec jobs of 8, 3, 7, 13 and 1 processes (5 and 11 as well in thorough), one of them on near-complete graphs. Rank 0 drives rapidcheck; every evaluation is broadcast as case text and executed "
           "collectively: a generated size P in 1..world selects the first P ranks through communicator::split, each selected rank perturbs its "
           "allocator state with a generated, rank-mixed LAYOUT TAPE (allocate 64 node-sized blocks, shuffle, free a subset) before building the "
           "identical graph, then all P ranks call the generated MPI entry point (five of them) on the sub-communicator. Oracle at rank 0: every "
@@ -681,7 +689,13 @@ def replay_all(pid, conf, path, workdir=None, timeout=120):
         cp = case_field(open(path).read(), "property")
     except OSError:
         cp = ""
+    try:
+        case_ranks = int(case_field(open(path).read(), "ranks") or "1")
+    except (OSError, ValueError):
+        case_ranks = 1
     for binp, env, launcher in phase_bins(pid, conf):
+        if launcher and launcher[0] == "mpiexec" and launcher[-2] == "-n" and int(launcher[-1]) < case_ranks:
+            launcher = launcher[:-1] + [str(case_ranks)]   # an MPI case is replayed with at least as many processes as it names
         hname = os.path.basename(binp)
         if cp and cp != pid and not binary_knows(hname, cp):
             continue
@@ -741,6 +755,8 @@ def run_rc_property(pid, tier, conf=None):
         futs = [ex.submit(run_shard, binp, pid, seed * 1000 + i, cases, env, excludes, workdir, i, timeout,
                           conf.get("max_size", 100), launcher) for i in range(shards)]
         bins = [binp] * shards
+        launchers = [launcher] * shards
+        envs = [env] * shards
         base_idx = shards
         for ph in conf.get("extra_phases", []):
             penv = dict(env)
@@ -750,10 +766,12 @@ def run_rc_property(pid, tier, conf=None):
                 futs.append(ex.submit(run_shard, pbin, ph.get("property", pid), seed * 1000 + ph.get("seed_offset", 500) + i, ph["cases"], penv, excludes,
                                       workdir, base_idx + i, ph.get("timeout", timeout), conf.get("max_size", 100), ph.get("launcher", launcher)))
                 bins.append(pbin)
+                launchers.append(ph.get("launcher", launcher))
+                envs.append(penv)
             base_idx += ph["shards"]
         results = [f.result() for f in futs]
-        for r, b in zip(results, bins):
-            r["binp"] = b
+        for r, b, l, e in zip(results, bins, launchers, envs):
+            r["binp"], r["launcher"], r["env"] = b, l, e   # a failure is minimised and confirmed with the launcher and environment that found it
     fz = conf.get("fuzz")
     fuzz_execs = 0
     if fz:
@@ -796,7 +814,7 @@ def run_rc_property(pid, tier, conf=None):
                 continue   # one confirmed replay per failure key is enough; do not minimise/confirm duplicates from other shards
             if hard and key != "hang":
                 try:
-                    text = minimise_crash_case(r.get("binp", binp), pid, text, env, workdir, key, launcher=launcher)
+                    text = minimise_crash_case(r.get("binp", binp), pid, text, r.get("env", env), workdir, key, launcher=r.get("launcher", launcher))
                 except Exception as exn:  # minimisation is best effort
                     notes.append("minimisation failed: %s" % exn)
             name = "%s-%s.case" % (pid, hashlib.sha1(text.encode()).hexdigest()[:16])
@@ -804,7 +822,7 @@ def run_rc_property(pid, tier, conf=None):
             with open(path, "w") as f:
                 f.write("# key %s\n# %s\n" % (fk, msg.replace("\n", " ")[:400]))
                 f.write(text)
-            ok, k2, m2 = confirm_and_report(r.get("binp", binp), pid, path, env, launcher=launcher,
+            ok, k2, m2 = confirm_and_report(r.get("binp", binp), pid, path, r.get("env", env), launcher=r.get("launcher", launcher),
                                             timeout=(600 if key == "hang" else 120))
             if ok:
                 if not any(v[0] == fk for v in violations):
